@@ -37,8 +37,11 @@ def run(tier, seed):
         "modular structural induction over finite type expressions",
     ]
     res.assumptions = ["invisibility on the wire / in the exported model, equality of bounds and idempotence follow from the per-class clauses by structural induction on paper; they are decided on the real stack by bounded.c11 only",
-                       "Hugr.resolve_extensions (the loop over nodes) is not under contract: bounded only"]
-    standard_flow(res, FILES, TARGETS, None, bounded_modules=[("bounded.c11", 300, 1200)])
+                       "Hugr.resolve_extensions is proved over the graph-store contracts of C04 (iteration and node lookup, contracts/base.py): every live node holding an opaque operation gets exactly the result of "
+                       "resolving it, every other node keeps its operation object, the node table is unchanged, only NodeData.op is written (frame)"]
+    hugr_files = [os.path.join(VERIF, "contracts", f) for f in ("base.py", "resolve.py", "tys.py", "resolve_hugr.py")]
+    standard_flow(res, FILES, TARGETS, None, bounded_modules=[("bounded.c11", 300, 1200)],
+                  more=[(hugr_files, ["hugr.hugr.base.Hugr.resolve_extensions"])])
     from checks.common import replay_header
     for g in ground():
         res.ground.append(g)
@@ -53,6 +56,6 @@ def run(tier, seed):
                        "of that name containing a definition of that name (the definition is the registry's own object), with its type arguments / signature rows / arguments resolved position by "
                        "position, and is returned untouched (the same object) otherwise; sums, function types, type schemes, type and sequence arguments resolve position by position keeping shape, "
                        "requirements and parameters; unit sums and every class that does not override resolve return themselves (closed world read from the AST). Registry / extension lookups raise "
-                       "their NotFound exceptions exactly for absent names. Wire invisibility, bound and model equality, idempotence and the HUGR-level loop are decided by a bounded run on the real "
-                       "stack -> category other. Two genuine defects were repaired (arguments of opaque types were not resolved; opaque types were exported under an unqualified name).")
+                       "their NotFound exceptions exactly for absent names. The HUGR-level loop (Hugr.resolve_extensions) is proved over the graph-store contracts: it replaces the operation of exactly the nodes holding an opaque operation by that operation's resolution and writes nothing else. "
+                       "Wire invisibility, bound and model equality and idempotence are decided by a bounded run on the real stack -> category other. Two genuine defects were repaired (arguments of opaque types were not resolved; opaque types were exported under an unqualified name).")
     return res.finish()
